@@ -32,8 +32,16 @@ def bval(b):
 
 
 octets = st.one_of(st.sampled_from([0, 1, 127, 128, 255]), st.integers(0, 255))
-ipv4_lit = st.builds(lambda a, b, c, d: f"{a}.{b}.{c}.{d}", octets, octets, octets, octets)
+_small = st.sampled_from([0, 1, 2, 3])
+# addresses whose packed form starts like an Address family code (00 01 / 00 02 / 00 00 ...) are generated on purpose: code that
+# recognises the family prefix by looking at the data must not mistake address octets for it
+ipv4_lit = st.one_of(st.builds(lambda a, b, c, d: f"{a}.{b}.{c}.{d}", octets, octets, octets, octets),
+                     st.builds(lambda a, b, c, d: f"{a}.{b}.{c}.{d}", octets, octets, octets, octets),
+                     st.builds(lambda a, b, c, d: f"{a}.{b}.{c}.{d}", _small, _small, _small, _small),
+                     st.builds(lambda a, b, c, d: f"{a}.{b}.{c}.{d}", _small, _small, octets, octets))
 ipv6_lit = st.one_of(
+    st.builds(lambda a, b, t: f"{a:x}:{b:x}::{t:x}", _small, _small, st.integers(0, 0xffff)),
+    st.builds(lambda a, t: f"{a:x}::{t}", st.sampled_from([1, 2, 0x100, 0x200, 0x1000]), ipv4_lit_plain := st.builds(lambda a, b, c, d: f"{a}.{b}.{c}.{d}", _small, _small, octets, octets)),
     st.ip_addresses(v=6).map(str),
     st.ip_addresses(v=6).map(lambda a: a.exploded),
     st.sampled_from(["::", "::1", "ffff:ffff:ffff:ffff:ffff:ffff:ffff:ffff", "2001:db8::", "::ffff:1.2.3.4",
